@@ -278,7 +278,8 @@ def generate(run_seed, tier):
     st = Streams(run_seed)
     c = st('config')
     cfg = {'R': c.choice([1, 1, 2, 3]), 'part': c.choice(
-        ['dict', 'dict', 'spectrum', 'reload', 'reload', 'solution'])}
+        ['dict', 'dict', 'spectrum', 'reload', 'reload', 'solution']),
+        'decoy_first': st('decoy').random() < 0.35}
     o = st('ops')
     ops = [['open', 'w']]
     if cfg['part'] == 'solution':
@@ -451,6 +452,17 @@ def generate(run_seed, tier):
             elif r < 0.85:
                 ops.append(['store', o.choice(groups), 'D%dx' % len(ops),
                             gen_tree(o)])
+            elif r < 0.93:
+                # two results in a row that each hold a large array of the
+                # same shape (native spectra of consecutive runs)
+                n_ = o.choice([4200, 6000, 9000])
+                for _j in range(2):
+                    ops.append(['store', o.choice(groups), 'D%dx' % len(ops),
+                                [['native', {'t': 'array', 'dtype': 'f8',
+                                             'shape': [n_],
+                                             'seed': o.randrange(2**31),
+                                             'nan': False, 'inf': False}],
+                                 ['n', {'t': 'int', 'v': _j}]]])
             else:
                 ops += [['close'], ['open', 'a']]
                 groups = [[]]
@@ -1072,6 +1084,30 @@ def _ctor_values(obj):
 
 def check_reload(viol, out, fname, model, cfg):
     from taurex.util.hdf5 import taurex_hdf5_to_model
+    if cfg.get('decoy_first'):
+        # another model file is loaded in the same process first: one whose
+        # components carry every optional keyword (nothing of it may stick)
+        import copy
+        from taurex.output.hdf5 import HDF5Output
+        dc = copy.deepcopy(cfg['model'])
+        dc['tp'] = {'kind': 'tarray', 'values': [1700.0, 1200.0, 800.0],
+                    'p_points': [1e5, 1e3, 1e1]}
+        for m_ in dc['molecules']:
+            if not m_.get('inactive'):
+                m_['gas'] = {'kind': 'power', 'profile_type': 'auto',
+                             'surface': 1e-5, 'alpha': 1.5, 'beta': 2e4,
+                             'gamma': 10.0}
+                break
+        try:
+            dm = R.build_model(dc, install=False)
+            dfn = fname + '.decoy.h5'
+            with HDF5Output(dfn) as o_:
+                dm.write(o_)
+            taurex_hdf5_to_model(dfn).build()
+            os.remove(dfn)
+            out.bump('probes', 'another_file_loaded_first')
+        except Exception:
+            out.bump('probes', 'decoy_failed')
     try:
         m2 = taurex_hdf5_to_model(fname)
         m2.build()
